@@ -20,9 +20,9 @@ func cmdCheck(prop, tier string, keep bool) int {
 	if !keep {
 		defer wd.cleanup()
 	}
-	timeout := 10
+	timeout := 25
 	if tier == "thorough" {
-		timeout = 60
+		timeout = 90
 	}
 	solveAll(pr, wd, timeout, tier == "thorough")
 	results := aggregate(pr)
@@ -52,6 +52,11 @@ func cmdCheck(prop, tier string, keep bool) int {
 			rp := writeReplay(prop, r, "vacuous precondition")
 			fmt.Printf("VIOLATION property=%s replay=%s no-failing-input-found\n", prop, rp)
 		case "violated":
+			if r.Failing != nil && r.Failing.Clause != nil && mentionsRemovedHelper(p, r.Failing.Clause.Text) {
+				undecided = append(undecided, r.Name)
+				fmt.Printf("UNDECIDED %s (the clause counts calls of an unexported helper that no longer exists; it cannot be checked against the restructured code)\n", r.Name)
+				continue
+			}
 			violations++
 			var rr *ReplayResult
 			if r.Failing != nil && r.Failing.Result.Status == "sat" && os.Getenv("GCV_NOREPLAY") == "" {
@@ -112,8 +117,15 @@ func cmdCheck(prop, tier string, keep bool) int {
 		}
 		return removedHelper(owner)
 	}
+	undecidedFuncs := map[string]bool{}
 	for _, f := range pr.Funcs {
 		if u := pr.FuncResults[f].Unsupported; u != "" {
+			if nf := newFunctionIn(u); nf != "" {
+				undecidedFuncs[f] = true
+				undecided = append(undecided, f+"/supported")
+				fmt.Printf("UNDECIDED %s/supported (%s; %s did not exist when the baseline was accepted: new code of a shape the executor cannot inline, nothing is claimed about it)\n", f, u, nf)
+				continue
+			}
 			if removedHelper(f) {
 				undecided = append(undecided, f+"/supported")
 				fmt.Printf("UNDECIDED %s/supported (unexported helper no longer exists; its contract is not claimed, callers are verified with the code that replaced it)\n", f)
@@ -127,6 +139,14 @@ func cmdCheck(prop, tier string, keep bool) int {
 	}
 	for _, n := range baselineNames {
 		if !seen[n] {
+			owner := n
+			if k := strings.Index(n, "/"); k >= 0 {
+				owner = n[:k]
+			}
+			if undecidedFuncs[owner] {
+				undecided = append(undecided, n+"/exists")
+				continue
+			}
 			if lenient(n) {
 				undecided = append(undecided, n+"/exists")
 				fmt.Printf("UNDECIDED %s/exists (belongs to the contract of an unexported helper that no longer exists)\n", n)
@@ -306,4 +326,53 @@ func qualifyShort(p *Prog, short string) string {
 		}
 	}
 	return short
+}
+
+
+// mentionsRemovedHelper: the clause text names (in a string literal, i.e. as a call event) a named,
+// unexported function of the repository that has a contract but no longer exists.
+func mentionsRemovedHelper(p *Prog, text string) bool {
+	parts := strings.Split(text, "\"")
+	for i := 1; i < len(parts); i += 2 {
+		q := strings.TrimPrefix(parts[i], "go ")
+		full := qualifyShort(p, q)
+		if _, has := p.specs.Funcs[full]; !has {
+			continue
+		}
+		if _, ok := p.fns[full]; ok || strings.Contains(full, "$") || isAssumedContract(p, full) {
+			continue
+		}
+		j := strings.LastIndex(full, ".")
+		if j < 0 || j+1 >= len(full) {
+			continue
+		}
+		c := full[j+1]
+		if !(c >= 'A' && c <= 'Z') {
+			return true
+		}
+	}
+	return false
+}
+
+
+// newFunctionIn: the unsupported-reason names an inlined callee with a loop; returns that callee's
+// name if it was not part of the repository when the baseline was accepted.
+func newFunctionIn(reason string) string {
+	const pre = "inlined callee "
+	i := strings.Index(reason, pre)
+	j := strings.Index(reason, " contains a loop")
+	if i < 0 || j < 0 {
+		return ""
+	}
+	name := reason[i+len(pre) : j]
+	all, ok := baselineParamsOf("#all")
+	if !ok {
+		return ""
+	}
+	for _, n := range all {
+		if n == name {
+			return ""
+		}
+	}
+	return name
 }
